@@ -134,6 +134,57 @@ def native_checks(run, n_cases):
     run.bounded.append({"what": "native construction of named vectors/covariances with random names and keyword subsets; unknown name; wrong shape", "bound": f"{n_cases} random argument lists of 0-6 names x 2 kinds", "failures": len(fails), "counted_as_proved": False})
 
 
+def native_foreign_values(run):
+    """Values bound to OTHER names of the same size: a reading made for sensor A handed to sensor B's update (both with two
+    readings), a State / Covariance / Control of another model with equally many symbols handed to this filter.  Names decide where a
+    value goes; such an object must be refused, never consumed by position."""
+    import numpy as np
+    import sympy
+
+    from replay import shim
+    from replay.native import repo_import
+
+    py = shim.install()
+    ui = repo_import("formak.ui")
+    dt, pos, vel, acc = sympy.symbols("dt pos vel acc")
+    model = ui.Model(dt=dt, state={pos, vel}, control={acc}, state_model={pos: pos + dt * vel, vel: vel + dt * acc})
+    ekf = py.compile_ekf(model, {acc: 1.0}, {"gps": {"p": pos, "p_rate": vel}, "wheel": {"speed": vel, "travel": 2 * pos}}, {"gps": {"p": 1.0, "p_rate": 1.0}, "wheel": {"speed": 0.5, "travel": 0.5}}, config={"innovation_filtering": None})
+    east, north, thr = sympy.symbols("east north throttle")
+    other = ui.Model(dt=dt, state={east, north}, control={thr}, state_model={east: east + dt * north, north: north + dt * thr})
+    ekf2 = py.compile_ekf(other, {thr: 1.0}, {"fix": {"e": east, "n": north}}, {"fix": {"e": 1.0, "n": 1.0}}, config={"innovation_filtering": None})
+    state, cov, ctl = ekf.State(pos=1.0, vel=2.0), ekf.Covariance(), ekf.Control(acc=0.5)
+    problems = []
+
+    import contextlib
+    import io
+
+    def refused(what, fn):
+        run.native_runs += 1
+        try:
+            with contextlib.redirect_stdout(io.StringIO()):  # (the library prints the argument types of a refused call)
+                out = fn()
+        except Exception:
+            return
+        problems.append(f"{what} was accepted (result {np.asarray(getattr(out, 'state', out[0] if isinstance(out, tuple) else out).data).flatten().tolist() if hasattr(getattr(out, 'state', None), 'data') else '...'}): its values were consumed by position under names they were not given for")
+
+    gps_reading = ekf.make_reading("gps", p=3.0, p_rate=4.0)
+    refused("a reading made for sensor gps (p, p_rate) handed to the update of sensor wheel (speed, travel)", lambda: ekf.sensor_model(state, cov, sensor_key="wheel", sensor_reading=gps_reading))
+    refused("a reading made for the other filter's sensor fix (e, n) handed to the update of sensor gps (p, p_rate)", lambda: ekf.sensor_model(state, cov, sensor_key="gps", sensor_reading=ekf2.make_reading("fix", e=3.0, n=4.0)))
+    refused("a State of another model (east, north) handed to process_model of the (pos, vel) filter", lambda: ekf.process_model(0.1, ekf2.State(east=1.0, north=2.0), cov, ctl))
+    refused("a Covariance of another model (east, north) handed to process_model of the (pos, vel) filter", lambda: ekf.process_model(0.1, state, ekf2.Covariance(), ctl))
+    refused("a State of another model (east, north) handed to sensor_model of the (pos, vel) filter", lambda: ekf.sensor_model(ekf2.State(east=1.0, north=2.0), cov, sensor_key="gps", sensor_reading=gps_reading))
+    # the matching objects are of course accepted
+    try:
+        ekf.sensor_model(state, cov, sensor_key="gps", sensor_reading=gps_reading)
+        ekf.process_model(0.1, state, cov, ctl)
+    except Exception as e:
+        problems.append(f"the filter's own State / Covariance / Control / reading were refused: {type(e).__name__}: {e}")
+    run.bounded.append({"what": "values bound to other names of the same size (a reading of another two-reading sensor, State / Covariance of another two-state model) handed to the filter: refused, never consumed by position", "bound": "5 foreign objects + the matching ones", "failures": len(problems), "counted_as_proved": False})
+    for p in problems[:2]:
+        run.findings.append(Finding("C13.py.native_foreign_values", "foreign", p, {"language": "python", "inputs": {"foreign_values": True, "seed": run.seed}, "oracle_verdict": problems[:4]}, True))
+    return problems
+
+
 def native_renaming(run, n_models, only_styles=None):
     """Metamorphic: rename a model's symbols (permuting the layout) and compare every named output of the real filter."""
     import sympy
@@ -331,8 +382,10 @@ def check(run):
     # renaming runs: thorough 6 models (all three spelling styles twice); quick 2 (the two temporary-like spellings)
     if run.tier == "thorough":
         native_renaming(run, 6)
+        native_foreign_values(run)
     else:
         native_renaming(run, 3, only_styles=(1, 2))
+        native_foreign_values(run)
 
 
 def replay_file(payload):
@@ -341,6 +394,11 @@ def replay_file(payload):
         from checks import C02
 
         return C02.replay_file({"inputs": inp["cxx_layout"]})
+    if inp.get("foreign_values"):
+        run0 = driver.PropertyRun("C13", "quick", inp.get("seed", 0))
+        p = native_foreign_values(run0)
+        print("replay C13 (values bound to other names):", p[:2] or "refused")
+        return not p
     if "shape" in inp and "container" in inp:
         from replay import kalman
 
